@@ -422,10 +422,12 @@ def job_api(cfg):
 
 
 def api_configs(tier, seed):
-    from ..configs import et_configs, dt_configs, es_configs
+    from ..configs import et_configs, dt_configs, es_configs, ET_TAGS
     seen = set()
     out = []
-    for c in list(et_configs(tier, seed)) + list(dt_configs(tier, seed)) + list(es_configs(tier, seed)):
+    # every serial-number tag the library knows (a model-specific quirk may hang on any of them), two power classes
+    every_tag = [dict(family='ET', tag=t, power=p, refused=(), battery_mode=2) for t in ET_TAGS for p in (3000, 50000)]
+    for c in list(et_configs(tier, seed)) + every_tag + list(dt_configs(tier, seed)) + list(es_configs(tier, seed)):
         k = (c['family'], c['tag'], c['power'], c.get('firmware'))
         if c['refused'] or c['battery_mode'] != (2 if c['family'] == 'ET' else 0) or k in seen:
             continue
